@@ -56,6 +56,11 @@ func (f *frame) exec(in ssa.Instruction, g Term, st *State) error {
 		et := x.Type().Underlying().(*types.Pointer).Elem()
 		obj := vc.allocObj(st, et)
 		f.set(x, MkPtr(obj, IntLit(0)))
+		if vc.typedPtrs {
+			if ts, ok := tt.tyStart(x.Type(), f.vals[x]); ok {
+				vc.assume(g, ts)
+			}
+		}
 	case *ssa.FieldAddr:
 		p := f.val(x.X)
 		f.nilCheck(x.X, p, g, x)
